@@ -16,8 +16,8 @@ LEVEL = "model_checking"
 def run(tier, rep):
     build_harness()
     states = trans = 0
-    for cfg in (["Mono_small.cfg"] if tier == "quick" else ["Mono_small.cfg", "Mono_big.cfg"]):
-        r = run_tlc("MCMono", cfg, workers=8, xmx="8g", coverage=True, timeout=2400)
+    for cfg in (["Mono_small.cfg"] if tier == "quick" else ["Mono_small.cfg", "Mono_deep.cfg", "Mono_big.cfg"]):
+        r = run_tlc("MCMono", cfg, workers=12, xmx="16g", coverage=True, timeout=3000)
         if not tlc_ok(r, cfg):
             rep.violation(f"model:{cfg}:{r.violated}", {"trace": r.trace[-4:]})
         for a in ("SeedStep", "PopStep", "EnsureStep"):
